@@ -98,7 +98,8 @@ theorem tail_error (R : Rounding) (P W rem : Int) (hP0 : 0 ≤ P) (hP : P ≤ 41
     let r1 := ops.add (P : ℚ) (ops.add (ops.div (ops.ofInt (W * 86400000000000)) (ops.ofInt 86400000000000))
                 (ops.div (ops.ofInt rem) (ops.ofInt 86400000000000)))
     let S : ℚ := (P : ℚ) + (W : ℚ) + (rem : ℚ) / 86400000000000
-    |r1 - S| ≤ u53 * (3 * W + S + 3) ∧ |ops.add r1 (ops.ofInt 1) - (S + 1)| ≤ u53 * (3 * W + 2 * S + 4) := by
+    |r1 - S| ≤ u53 * (3 * W + S + 3) ∧ |ops.add r1 (ops.ofInt 1) - (S + 1)| ≤ u53 * (3 * W + 2 * S + 4) ∧
+    0 ≤ r1 ∧ 0 ≤ ops.add r1 (ops.ofInt 1) := by
   intro ops r1 S
   have hPq0 : (0 : ℚ) ≤ (P : ℚ) := by exact_mod_cast hP0
   have hPq : (P : ℚ) ≤ 4194304 := by exact_mod_cast hP
@@ -148,11 +149,14 @@ theorem tail_error (R : Rounding) (P W rem : Int) (hP0 : 0 ≤ P) (hP : P ≤ 41
     rw [e_r1, hone, hr2]
   rw [e_r2, e_r1]
   show |q1 - ((P : ℚ) + (W : ℚ) + (rem : ℚ) / 86400000000000)| ≤ u53 * (3 * W + ((P : ℚ) + (W : ℚ) + (rem : ℚ) / 86400000000000) + 3) ∧
-    |q2 - ((P : ℚ) + (W : ℚ) + (rem : ℚ) / 86400000000000 + 1)| ≤ u53 * (3 * W + 2 * ((P : ℚ) + (W : ℚ) + (rem : ℚ) / 86400000000000) + 4)
+    |q2 - ((P : ℚ) + (W : ℚ) + (rem : ℚ) / 86400000000000 + 1)| ≤ u53 * (3 * W + 2 * ((P : ℚ) + (W : ℚ) + (rem : ℚ) / 86400000000000) + 4) ∧
+    0 ≤ q1 ∧ 0 ≤ q2
   unfold u53 at *
-  constructor
+  refine ⟨?_, ?_, ?_, ?_⟩
   · rw [abs_le]; constructor <;> linarith
   · rw [abs_le]; constructor <;> linarith
+  · linarith
+  · linarith
 
 /-! ### the whole function -/
 
@@ -169,7 +173,8 @@ theorem encode_error_core (R : Rounding) (t date : Int) (inc : Bool) (h : ¬ t <
     |(if inc then (ratOps R).add r ((ratOps R).ofInt 1) else r) - (if inc then σ + 1 else σ)|
       ≤ u53 * (5 * σ + 4) ∧
     |(if inc then (ratOps R).add r ((ratOps R).ofInt 1) else r) - (if inc then σ + 1 else σ)|
-      ≤ u53 * (316677 + 2 * σ + 4) := by
+      ≤ u53 * (316677 + 2 * σ + 4) ∧
+    0 ≤ (if inc then (ratOps R).add r ((ratOps R).ofInt 1) else r) := by
   intro p r σ
   have h0 : 0 ≤ t - date := by omega
   have hmd : maxDuration = 9120384000000000000 := durations_ok.2.1
@@ -222,12 +227,12 @@ theorem encode_error_core (R : Rounding) (t date : Int) (inc : Bool) (h : ¬ t <
   cases inc
   · simp only [Bool.false_eq_true, if_false]
     have := hte.1
-    constructor
+    refine ⟨?_, ?_, hte.2.2.1⟩
     · refine le_trans this (mul_le_mul_of_nonneg_left ?_ hu); linarith
     · refine le_trans this (mul_le_mul_of_nonneg_left ?_ hu); linarith
   · simp only [if_true]
-    have := hte.2
-    constructor
+    have := hte.2.1
+    refine ⟨?_, ?_, hte.2.2.2⟩
     · refine le_trans this (mul_le_mul_of_nonneg_left ?_ hu); linarith
     · refine le_trans this (mul_le_mul_of_nonneg_left ?_ hu); linarith
 
@@ -271,7 +276,7 @@ theorem encode_error_bound (R : Rounding) (t : Int) (date1904 : Bool)
     generalize hinc : (!date1904 && decide (t > buggyStart)) = inc at *
     have hN' : t - date < 2958466 * 86400000000000 := by
       rw [hclosed] at hN; split at hN <;> omega
-    obtain ⟨c1, c2⟩ := encode_error_core R t date inc hlt hN'
+    obtain ⟨c1, c2, _⟩ := encode_error_core R t date inc hlt hN'
     -- the exact serial as a rational
     have hex : ((timeToExcelTimeNs t date1904 : Int) : ℚ) / ((dayNanoseconds : Int) : ℚ)
         = if inc = true then ((t - date : Int) : ℚ) / 86400000000000 + 1 else ((t - date : Int) : ℚ) / 86400000000000 := by
@@ -302,5 +307,26 @@ theorem encode_error_bound (R : Rounding) (t : Int) (date1904 : Bool)
       refine le_trans c2 ?_
       rw [pow2_30]; unfold u53
       nlinarith
+
+/-- the float-level result is never negative (so `ExcelDateToTime` never rejects it) -/
+theorem encode_nonneg (R : Rounding) (t : Int) (date1904 : Bool)
+    (hN : timeToExcelTimeNs t date1904 < 2958466 * 86400000000000) :
+    0 ≤ timeToExcelTimeF (ratOps R) t date1904 := by
+  unfold timeToExcelTimeF
+  simp only []
+  have hclosed := timeToExcelTimeNs_eq t date1904
+  by_cases hlt : t < (if date1904 then epoch1904 else minTime1900)
+  · rw [if_pos hlt]
+    show 0 ≤ R.rnd ((0 : Int) : ℚ)
+    rw [rnd_zero]; norm_num
+  · rw [if_neg hlt]
+    have hN' : t - (if date1904 then epoch1904 else minTime1900) < 2958466 * 86400000000000 := by
+      rw [hclosed] at hN
+      cases date1904
+      · simp only [Bool.false_eq_true, if_false] at hN hlt ⊢
+        rw [if_neg hlt] at hN; split at hN <;> omega
+      · simp only [if_true] at hN hlt ⊢
+        rw [if_neg hlt] at hN; omega
+    exact (encode_error_core R t _ (!date1904 && decide (t > buggyStart)) hlt hN').2.2
 
 end XlModel.Date.Impl
